@@ -170,7 +170,9 @@ static void roundtrip_one(int pi, int tree, int sp, int vp, int topt)
 	jwt_set_crypto_ops(PROV[sp]);
 	jwt_builder_t *b = jwt_builder_new();
 	jwt_value_t v;
-	int iat = topt & 1, nbf = topt & 2 ? 10 : 0, exp = topt & 4 ? 300 : 0;
+	/* every second group of eight trees uses an expiry more than 2^31 seconds away (time_t offsets are 64 bits wide) */
+	int iat = topt & 1;
+	long nbf = topt & 2 ? 10 : 0, exp = topt & 4 ? (topt & 8 ? 3000000000L : 300) : 0;
 	/* expected documents */
 	json_t *eh = json_object(), *ec = json_object();
 	json_t *t = TREES[tree];
@@ -374,10 +376,10 @@ static void enumerate_c05(void)
 					load_pair(pi);
 					rc_rng_reseed(vf_case_index());
 					for (int t = from; t < from + 40 * tstep && t < NTREES; t += tstep)
-						roundtrip_one(pi, t, sp, vp, t % 8);
+						roundtrip_one(pi, t, sp, vp, t % 16);
 					if (from == 0)
 						for (int t = first_nul_tree; t <= last_nul_tree; t++)
-							roundtrip_one(pi, t, sp, vp, t % 8);
+							roundtrip_one(pi, t, sp, vp, t % 16);
 					vf_nontrivial_case();
 				}
 			}
@@ -425,7 +427,7 @@ enum { K_NONE, K_OCT, K_ES };
 enum { CB_NONE, CB_ADD, CB_SETKEY, CB_DELCLAIMS, CB_DROPKEY };
 typedef struct {
 	json_t *h, *c;
-	int iat, nbf, exp;   /* offsets; 0 = disabled */
+	long iat, nbf, exp;   /* offsets; 0 = disabled */
 	int key;
 	int cb;
 } bst_t;
@@ -436,12 +438,17 @@ enum {
 	B_IAT_OFF, B_IAT_ON, B_EXP_NEG, B_EXP_0, B_EXP_60, B_NBF_NEG, B_NBF_0, B_NBF_60, B_OFF_IAT_BAD,
 	B_KEY_NONE, B_KEY_OCT, B_KEY_ES, B_KEY_ES_PUB,
 	B_CB_NULL, B_CB_ADD, B_CB_SETKEY, B_CB_DELCLAIMS, B_CB_DROPKEY,
+	B_HSET_TYP_INT, B_EXP_BIG, B_NBF_BIG,
 	B_GEN_T0, B_GEN_T1, NBOPS
 };
+/* offsets beyond 2^31 and 2^32 seconds (time_t is 64 bits wide here) */
+#define OFF_EXP_BIG 3000000000L
+#define OFF_NBF_BIG 6311520000L
 static const char *bop_name[NBOPS] = { "header_set(typ,X)", "header_set(alg,none)", "header_set(kid,k)", "header_del(typ)", "header_del(all)", "claim_set(iat,7)", "claim_set(nbf,7)",
 	"claim_set(exp,7)", "claim_set(sub,s)", "claim_del(sub)", "claim_del(all)", "claim_set(exp,\"never\")", "claim_set(iat,true)", "enable_iat(0)", "enable_iat(1)", "time_offset(EXP,-5)", "time_offset(EXP,0)",
 	"time_offset(EXP,60)", "time_offset(NBF,-5)", "time_offset(NBF,0)", "time_offset(NBF,60)", "time_offset(IAT,1)!", "setkey(none,NULL)", "setkey(none,oct+HS256)",
 	"setkey(ES256,P-256 private)", "setkey(ES256,P-256 public)!", "setcb(NULL)", "setcb(adds claim+header)", "setcb(selects HS256 key)", "setcb(deletes all claims)", "setcb(withdraws key and alg)",
+	"header_set(typ,7)", "time_offset(EXP,3000000000)", "time_offset(NBF,6311520000)",
 	"generate@T0", "generate@T0+1000" };
 
 static jwk_set_t *bk_oct, *bk_es, *bk_es_pub;
@@ -454,7 +461,7 @@ static char *bst_canon(const bst_t *s)
 {
 	char *h = tok_jdump(s->h, JSON_COMPACT | JSON_SORT_KEYS), *c = tok_jdump(s->c, JSON_COMPACT | JSON_SORT_KEYS);
 	char *r = malloc(strlen(h) + strlen(c) + 64);
-	sprintf(r, "%s|%s|%d|%d|%d|%d|%d", h, c, s->iat, s->nbf, s->exp, s->key, s->cb);
+	sprintf(r, "%s|%s|%ld|%ld|%ld|%d|%d", h, c, s->iat, s->nbf, s->exp, s->key, s->cb);
 	free(h);
 	free(c);
 	return r;
@@ -492,6 +499,9 @@ static void bmodel_step(bst_t *s, int op)
 	case B_EXP_60: s->exp = 60; break;
 	case B_NBF_NEG: case B_NBF_0: s->nbf = 0; break;
 	case B_NBF_60: s->nbf = 60; break;
+	case B_HSET_TYP_INT: mset(s->h, "typ", json_integer(7), 0); break;
+	case B_EXP_BIG: s->exp = OFF_EXP_BIG; break;
+	case B_NBF_BIG: s->nbf = OFF_NBF_BIG; break;
 	case B_OFF_IAT_BAD: break;
 	case B_KEY_NONE: s->key = K_NONE; break;
 	case B_KEY_OCT: s->key = K_OCT; break;
@@ -561,6 +571,9 @@ static int bimpl_step(jwt_builder_t *b, int op)
 	case B_NBF_NEG: return jwt_builder_time_offset(b, JWT_CLAIM_NBF, -5);
 	case B_NBF_0: return jwt_builder_time_offset(b, JWT_CLAIM_NBF, 0);
 	case B_NBF_60: return jwt_builder_time_offset(b, JWT_CLAIM_NBF, 60);
+	case B_HSET_TYP_INT: jwt_set_SET_INT(&v, "typ", 7); return jwt_builder_header_set(b, &v);
+	case B_EXP_BIG: return jwt_builder_time_offset(b, JWT_CLAIM_EXP, OFF_EXP_BIG);
+	case B_NBF_BIG: return jwt_builder_time_offset(b, JWT_CLAIM_NBF, OFF_NBF_BIG);
 	case B_OFF_IAT_BAD: return jwt_builder_time_offset(b, JWT_CLAIM_IAT, 1);
 	case B_KEY_NONE: return jwt_builder_setkey(b, JWT_ALG_NONE, NULL);
 	case B_KEY_OCT: return jwt_builder_setkey(b, JWT_ALG_NONE, jwks_item_get(bk_oct, 0));
